@@ -3,7 +3,7 @@
 use crate::handle::Probe;
 use crate::shapes::*;
 use std::hash::Hash;
-use triomphe::{Arc, HeaderSlice, ThinArc};
+use triomphe::{Arc, HeaderSlice, ThinArc, UniqueArc};
 
 pub trait Family: Sized + 'static {
     const NAME: &'static str;
@@ -28,19 +28,29 @@ pub trait Family: Sized + 'static {
         Err(a)
     }
     /// serde's `deserialize_in_place` on an `Arc<P>` (configuration A). None = not available.
-    fn de_in_place(_place: &mut Arc<Self::P>, _v: u32) -> Option<Result<(), ()>> {
+    fn de_in_place(_place: &mut Arc<Self::P>, _v: u32, _bad: bool) -> Option<Result<(), ()>> {
+        None
+    }
+    /// The same on a `UniqueArc<P>`.
+    fn de_in_place_uni(_place: &mut UniqueArc<Self::P>, _v: u32, _bad: bool) -> Option<Result<(), ()>> {
         None
     }
 }
 
+/// `bad`: the input is a string where the payload's deserialiser wants a number, so it fails
+/// with a type error before any payload exists.
 #[cfg(feature = "cfg_a")]
-pub fn de_in_place_impl<T: for<'de> serde::Deserialize<'de>>(place: &mut Arc<T>, v: u32) -> Option<Result<(), ()>> {
+pub fn de_in_place_impl<W: for<'de> serde::Deserialize<'de>>(place: &mut W, v: u32, bad: bool) -> Option<Result<(), ()>> {
     use serde::de::IntoDeserializer;
+    if bad {
+        let d: serde::de::value::StrDeserializer<serde::de::value::Error> = "not a number".into_deserializer();
+        return Some(serde::Deserialize::deserialize_in_place(d, place).map_err(|_| ()));
+    }
     let d: serde::de::value::U32Deserializer<serde::de::value::Error> = v.into_deserializer();
     Some(serde::Deserialize::deserialize_in_place(d, place).map_err(|_| ()))
 }
 #[cfg(not(feature = "cfg_a"))]
-pub fn de_in_place_impl<T>(_place: &mut Arc<T>, _v: u32) -> Option<Result<(), ()>> {
+pub fn de_in_place_impl<W>(_place: &mut W, _v: u32, _bad: bool) -> Option<Result<(), ()>> {
     None
 }
 
@@ -54,8 +64,11 @@ macro_rules! family {
             type Q = $q;
             type H = $h;
             type E = $e;
-            fn de_in_place(place: &mut Arc<Self::P>, v: u32) -> Option<Result<(), ()>> {
-                $crate::family::de_in_place_impl(place, v)
+            fn de_in_place(place: &mut Arc<Self::P>, v: u32, bad: bool) -> Option<Result<(), ()>> {
+                $crate::family::de_in_place_impl(place, v, bad)
+            }
+            fn de_in_place_uni(place: &mut UniqueArc<Self::P>, v: u32, bad: bool) -> Option<Result<(), ()>> {
+                $crate::family::de_in_place_impl(place, v, bad)
             }
             fn p_as_q(a: Arc<Self::P>) -> Result<Arc<Self::Q>, Arc<Self::P>> {
                 Ok(a)
@@ -71,8 +84,11 @@ macro_rules! family {
             type Q = $q;
             type H = $h;
             type E = $e;
-            fn de_in_place(place: &mut Arc<Self::P>, v: u32) -> Option<Result<(), ()>> {
-                $crate::family::de_in_place_impl(place, v)
+            fn de_in_place(place: &mut Arc<Self::P>, v: u32, bad: bool) -> Option<Result<(), ()>> {
+                $crate::family::de_in_place_impl(place, v, bad)
+            }
+            fn de_in_place_uni(place: &mut UniqueArc<Self::P>, v: u32, bad: bool) -> Option<Result<(), ()>> {
+                $crate::family::de_in_place_impl(place, v, bad)
             }
             fn hs_from_slice(h: Self::H, s: &[Self::E]) -> Option<Arc<HeaderSlice<Self::H, [Self::E]>>> {
                 Some(Arc::from_header_and_slice(h, s))
@@ -97,8 +113,11 @@ macro_rules! family {
             type Q = $q;
             type H = $h;
             type E = $e;
-            fn de_in_place(place: &mut Arc<Self::P>, v: u32) -> Option<Result<(), ()>> {
-                $crate::family::de_in_place_impl(place, v)
+            fn de_in_place(place: &mut Arc<Self::P>, v: u32, bad: bool) -> Option<Result<(), ()>> {
+                $crate::family::de_in_place_impl(place, v, bad)
+            }
+            fn de_in_place_uni(place: &mut UniqueArc<Self::P>, v: u32, bad: bool) -> Option<Result<(), ()>> {
+                $crate::family::de_in_place_impl(place, v, bad)
             }
         }
     };
@@ -111,8 +130,11 @@ macro_rules! family {
             type Q = $q;
             type H = $h;
             type E = $e;
-            fn de_in_place(place: &mut Arc<Self::P>, v: u32) -> Option<Result<(), ()>> {
-                $crate::family::de_in_place_impl(place, v)
+            fn de_in_place(place: &mut Arc<Self::P>, v: u32, bad: bool) -> Option<Result<(), ()>> {
+                $crate::family::de_in_place_impl(place, v, bad)
+            }
+            fn de_in_place_uni(place: &mut UniqueArc<Self::P>, v: u32, bad: bool) -> Option<Result<(), ()>> {
+                $crate::family::de_in_place_impl(place, v, bad)
             }
             fn hs_from_slice(h: Self::H, s: &[Self::E]) -> Option<Arc<HeaderSlice<Self::H, [Self::E]>>> {
                 Some(Arc::from_header_and_slice(h, s))
